@@ -104,6 +104,13 @@ def judge_text(run, text, b0, interps, cards, how, case, as_script):
     if t0 != t1:
         run.fail({"subcheck": "smtlib:sort"}, case, "%s: text has sort %r, formula %r\n text=%s" % (how, t1, t0, text[:500]))
         return
+    # the text mentions exactly the formula's free symbols (a name written differently is another symbol)
+    extra_syms = reffv(tb) - reffv(b0)
+    if extra_syms:
+        run.fail({"subcheck": "smtlib:symbols", "printer": how.split("/")[0]}, case,
+                 "%s: the text mentions %s, which the formula does not\n formula=%s\n text=%s" % (
+                     how, sorted(map(repr, extra_syms))[:3], show(b0), text[:500]))
+        return
     unbounded = any(t in (INT, REAL) for s in subterms(b0) if s[0] in ("FORALL", "EXISTS") for (_, t) in s[1])
     win = WINDOW if unbounded else None
     try:
@@ -211,7 +218,8 @@ def gen_case(rnd, k):
     ns = set()
     for x in [t] + extra:
         ns |= {n for (n, _) in all_symbols(x)}
-    m = names.hostile_mapping(rnd, ns, pct=55)
+    FNS = {n for x in [t] + extra for (n, ty_) in all_symbols(x) if is_fun(ty_)}
+    m = names.hostile_mapping(rnd, ns, pct=55, functions=FNS)
     return names.rename(t, m), g, g.cards(), [names.rename(x, m) for x in extra]
 
 
@@ -280,6 +288,11 @@ def check_multi_script(run, bps, g, cards):
         got = rs.assertions()
         if len(got) != len(bs):
             run.fail({"subcheck": "smtlib:script-shape"}, case, "%d assertions read, %d written" % (len(got), len(bs)))
+            continue
+        strange = [(i, sorted(map(repr, reffv(t) - reffv(b)))[:3]) for i, (b, t) in enumerate(zip(bs, got)) if reffv(t) - reffv(b)]
+        if strange:
+            run.fail({"subcheck": "smtlib:symbols", "printer": "multi-script"}, case,
+                     "%s: assertion #%d mentions %s, which the formula does not\n text=%s" % (how, strange[0][0], strange[0][1], text[:700]))
             continue
         try:
             for i, (b, t) in enumerate(zip(bs, got)):
